@@ -145,6 +145,18 @@ class _NumpyLikeOperatorDispatcher:
         c = self.op.div(a, b)
         if isinstance(c.type, Tensor) and not issubclass(c.type._elem_type, np.integer):
             c = self.op.floor(c)
+        elif isinstance(c.type, Tensor) and issubclass(
+            c.type._elem_type, np.signedinteger
+        ):
+            # ONNX integer Div truncates towards zero, numpy (and Python) round down:
+            # subtract one where the remainder is non-zero and its sign differs from the divisor's.
+            zero = self.op.const(np.array(0, c.type.dtype))
+            rem = self.op.sub(a, self.op.mul(c, b))
+            adjust = self.op.and_(
+                self.op.not_(self.op.equal(rem, zero)),
+                self.op.xor(self.op.less(rem, zero), self.op.less(b, zero)),
+            )
+            c = self.op.sub(c, self.op.cast(adjust, to=c.type.dtype))
         return c
 
     def neg(self, a: Var) -> Var:
